@@ -487,7 +487,7 @@ func (r *Recorder) Take() []Note {
 func (s *Sys) AddMonitor(method, id string, req map[string]*ovsdb.MonitorRequest) (*Recorder, *rpc2.Client, json.RawMessage, error) {
 	rec, cl := NewRecorder()
 	dbn, _ := json.Marshal(s.Name)
-	idj, _ := json.Marshal(id)
+	idj := json.RawMessage(id) // id is raw JSON (the monitor's json-value)
 	rq, err := json.Marshal(req)
 	if err != nil {
 		return nil, nil, nil, err
